@@ -96,6 +96,9 @@ func (r *c03) treeObs(res string, reg int) string {
 }
 
 func (r *c03) curObs(res string, c int) string {
+	if blindObs { // second, query-free execution (Stream.Blind)
+		return "r=" + res
+	}
 	cur := r.curs[c]
 	var in []int
 	cur.Inorder(func(k int) bool { in = append(in, k); return true })
@@ -215,49 +218,53 @@ func (r *c03) Exec(op []string) string {
 	}
 	if cur == nil {
 		r.st.Note("op-on-nil-cursor")
-	} else if !cur.Valid() {
+	} else if !blindObs && !cur.Valid() {
 		r.st.Note("op-on-invalid-cursor")
 	}
 	res := "-"
 	switch op[0] {
 	case "next":
-		if cur.HasRight() {
-			r.st.Note("next-descends")
-		} else if cur.HasNext() {
-			if cur.Clone().Up().HasLeft() && cur.Clone().Up().Left().Key() == cur.Key() {
-				r.st.Note("next-is-parent")
-			} else {
-				r.st.Note("next-walks-up>1")
+		if !blindObs { // labels only: no query in the query-free execution
+			if cur.HasRight() {
+				r.st.Note("next-descends")
+			} else if cur.HasNext() {
+				if cur.Clone().Up().HasLeft() && cur.Clone().Up().Left().Key() == cur.Key() {
+					r.st.Note("next-is-parent")
+				} else {
+					r.st.Note("next-walks-up>1")
+				}
+			} else if cur.Valid() {
+				r.st.Note("next-off-end")
 			}
-		} else if cur.Valid() {
-			r.st.Note("next-off-end")
 		}
 		cur.Next()
 	case "prev":
-		if cur.HasLeft() {
-			r.st.Note("prev-descends")
-		} else if cur.HasPrev() {
-			if cur.Clone().Up().HasRight() && cur.Clone().Up().Right().Key() == cur.Key() {
-				r.st.Note("prev-is-parent")
-			} else {
-				r.st.Note("prev-walks-up>1")
+		if !blindObs { // labels only: no query in the query-free execution
+			if cur.HasLeft() {
+				r.st.Note("prev-descends")
+			} else if cur.HasPrev() {
+				if cur.Clone().Up().HasRight() && cur.Clone().Up().Right().Key() == cur.Key() {
+					r.st.Note("prev-is-parent")
+				} else {
+					r.st.Note("prev-walks-up>1")
+				}
+			} else if cur.Valid() {
+				r.st.Note("prev-off-end")
 			}
-		} else if cur.Valid() {
-			r.st.Note("prev-off-end")
 		}
 		cur.Prev()
 	case "left":
-		if cur.Valid() && !cur.HasLeft() {
+		if !blindObs && cur.Valid() && !cur.HasLeft() {
 			r.st.Note("left-invalidates")
 		}
 		cur.Left()
 	case "right":
-		if cur.Valid() && !cur.HasRight() {
+		if !blindObs && cur.Valid() && !cur.HasRight() {
 			r.st.Note("right-invalidates")
 		}
 		cur.Right()
 	case "up":
-		if cur.Valid() && !cur.HasParent() {
+		if !blindObs && cur.Valid() && !cur.HasParent() {
 			r.st.Note("up-from-root")
 		}
 		cur.Up()
@@ -739,7 +746,7 @@ func c03ShapeKey(p []int) string {
 }
 
 func init() {
-	register(&Stream{Name: "C03", Gen: genC03, New: func(st *Stats) Runner {
+	register(&Stream{Name: "C03", Gen: genC03, Blind: true, New: func(st *Stats) Runner {
 		return &c03{trees: map[int]*stree.Tree[int]{}, curs: map[int]*stree.Cursor[int]{}, st: st}
 	}})
 }
